@@ -29,6 +29,7 @@ func NewDedupQueue(store Store) *DedupQueue {
 
 func (q *DedupQueue) GetChunk(id ChunkID) (*Chunk, error) {
 	req, isInFlight := q.getChunkQueue.loadOrStore(id)
+	verifYield("dedup.get.loaded")
 
 	if isInFlight { // The request is already in-flight, wait for it to come back
 		data, err := req.wait()
@@ -44,10 +45,12 @@ func (q *DedupQueue) GetChunk(id ChunkID) (*Chunk, error) {
 
 	// This request is the first one for this chunk, execute as normal
 	b, err := q.store.GetChunk(id)
+	verifYield("dedup.get.upstream")
 
 	// Signal to any others that wait for us that we're done, they'll use our data
 	// and don't need to hit the store themselves
 	req.markDone(b, err)
+	verifYield("dedup.get.marked")
 
 	// We're done, drop the request from the queue to avoid keeping all the chunk data
 	// in memory after the request is done
@@ -58,6 +61,7 @@ func (q *DedupQueue) GetChunk(id ChunkID) (*Chunk, error) {
 
 func (q *DedupQueue) HasChunk(id ChunkID) (bool, error) {
 	req, isInFlight := q.hasChunkQueue.loadOrStore(id)
+	verifYield("dedup.has.loaded")
 
 	if isInFlight { // The request is already in-flight, wait for it to come back
 		data, err := req.wait()
@@ -70,6 +74,7 @@ func (q *DedupQueue) HasChunk(id ChunkID) (bool, error) {
 	// Signal to any others that wait for us that we're done, they'll use our data
 	// and don't need to hit the store themselves
 	req.markDone(hasChunk, err)
+	verifYield("dedup.has.marked")
 
 	// We're done, drop the request from the queue to avoid keeping all in memory
 	q.hasChunkQueue.delete(id)
